@@ -15,7 +15,7 @@ RULE = ('model states reached (a) by the operation histories of C02 through the 
         'predicate functions, order_by / reverse_order_by on 1-2 attributes (ties frequent); navigation chains of '
         "1-4 hops via .nav() and the X[n, 'phrase'] syntax from None, an instance, a QuerySet, a list or a generator, "
         'through association classes (direct class-to-class hop) and reflexive phrases, with filters, in many/one/any '
-        'form; navigate_subtype. Every returned set is then emptied by the caller (a result is a value, not a view of the model); for half of the history states the model is changed a little afterwards (values of a later instance copied to an earlier one, further relate / unrelate / delete calls) and the same queries are asked again. Oracle: evaluation over the plain relational shadow (filter = conjunction in '
+        'form; navigate_subtype (also after every supertype instance of a history state was moved, one subtype class after the other, to a new subtype instance). Every returned set is then emptied by the caller (a result is a value, not a view of the model); for half of the history states the model is changed a little afterwards (values of a later instance copied to an earlier one, further relate / unrelate / delete calls) and the same queries are asked again. Oracle: evaluation over the plain relational shadow (filter = conjunction in '
         'creation order, stable sort, descending keeps ties in original order, navigation = duplicate-free union in '
         'encounter order). non-trivial = query with >= 2 operators or a chain of >= 2 hops from >= 2 start '
         'instances, with a non-empty expected result and >= 1 candidate filtered out; distinct = by (state, query).')
